@@ -488,6 +488,9 @@ func (t *Tree) RerootOutGroup(removeoutgroup, strict bool, tips ...string) error
 	}
 	var rootedge *Edge
 
+	if n == nil {
+		return errors.New("Reroot error: no common ancestor found for the given outgroup")
+	}
 	if len(n.br) == 1 {
 		rootedge = n.br[0]
 	} else {
